@@ -16,7 +16,7 @@ ID = "C05"
 LEVEL = "model_checking"
 RULE = (
     "every ordered operand pair (X, Y) of the P/PC/TT/numeric-variant alphabets and, at depth 2, X = (A o B) "
-    "against a third leaf, in exact general position: the transitions X|Y, X&Y, X-Y, Y-X, X^Y, ~X, ~Y are executed "
+    "against a third leaf, rings nested through islands, curved pairs (incl. two-segment lenses and cubics), in exact general position: the transitions X|Y, X&Y, X-Y, Y-X, X^Y, ~X, ~Y are executed "
     "on the real code and the identities m(X|Y)+m(X&Y)=m(X)+m(Y), m(X-Y)=m(X)-m(X&Y), m(X^Y)=m(X|Y)-m(X&Y), "
     "m(~X)=-m(X) are evaluated for the 6 moments of order <= 2 (exactly for rational data, rel 1e-5 otherwise). "
     "non-trivial = operand boundaries cross; state = distinct result representation; transition = operator application."
